@@ -762,7 +762,8 @@ SCALE_DEFAULT = {'changes': 2, 'files': 2, 'pre_lines': 2, 'pre_width': 5,
                  'indent': 4, 'meta_keys': 2, 'meta_depth': 1,
                  'meta_strlen': 3, 'diff_lines': 3, 'diff_width': 5,
                  'pre_total': 0, 'diff_total': 0, 'diff_one': 0,
-                 'meta_total': 0, 'straddle': 0, 'pre_barecr': 0}
+                 'meta_total': 0, 'straddle': 0, 'pre_barecr': 0,
+                 'char': -1}
 
 
 def scale_calls(cfg, enc=None, le=None):
@@ -795,6 +796,13 @@ def scale_calls(cfg, enc=None, le=None):
         line = 'bare %s here and %s there' % (other, other)
         ptext = (line + nl) * (cfg['pre_barecr'] // (len(line) + len(nl)))
     mmeta = meta('main')
+    ch = None
+    if cfg.get('char', -1) >= 0:
+        # one special character inside a line, at the start of a line and
+        # at the end of a line; in a metadata key and value; in a diff
+        ch = chr(cfg['char'])
+        ptext = 'a' + ch + 'b' + nl + ch + 'line' + nl + 'end' + ch + nl
+        mmeta['k' + ch] = ['v' + ch + 'w', ch]
     if cfg.get('meta_total'):
         mmeta['blob'] = ['v' * 50] * (cfg['meta_total'] // 60)
     calls = [['preamble', ptext, enc, cfg['indent'], le, None],
@@ -817,6 +825,9 @@ def scale_calls(cfg, enc=None, le=None):
                 if c == 0 and f == 0 and cfg.get('diff_one'):
                     body = sized_text(cfg['diff_one'], 'one', nl,
                                       '+').encode('ascii')
+                if c == 0 and f == 0 and ch is not None:
+                    body = nl.join(['@@ -1 +1,3 @@', '-x', '+a' + ch + 'b',
+                                    '+' + ch, '+e' + ch, '']).encode('utf-8')
                 calls.append(['diff', body, None, None, le])
     return calls
 
@@ -846,6 +857,16 @@ def scale_configs(tier):
                 continue        # these override each other
             c = dict(SCALE_DEFAULT)
             c[a], c[b] = big[a], big[b]
+            out.append(c)
+    # the character pass: one special character at a time (every control,
+    # separator, line-breaking, format and normalisation-sensitive character
+    # of mc.alphabets.SPECIAL_CHARS), indented and not
+    from mc.alphabets import SPECIAL_CHARS
+    for cp in SPECIAL_CHARS:
+        for indent in (4, 0):
+            c = dict(SCALE_DEFAULT)
+            c['char'] = cp
+            c['indent'] = indent
             out.append(c)
     # "huge": thresholds are one-sided (behaviour changes for everything
     # at or above T), so one value far above every plausible buffer size
